@@ -708,7 +708,7 @@ func (x *applierRun) closeCase() {
 		x.cancel()
 		select {
 		case <-x.done:
-		case <-time.After(5 * time.Second):
+		case <-time.After(patience(5 * time.Second)):
 		}
 		x.cancel = nil
 	}
@@ -790,7 +790,7 @@ func (x *applierRun) buildPrimary() string {
 		if ids := md.Get("session-id"); len(ids) > 0 {
 			x.session = ids[0]
 		}
-	case <-time.After(10 * time.Second):
+	case <-time.After(patience(10 * time.Second)):
 		return fail("err session")
 	}
 	return ""
